@@ -1,6 +1,5 @@
 PROP = dict(
     id="C23",
-    disabled=True,
     engines=["c23"],
     go_tags=["c23"],
     gen_files={},
